@@ -114,6 +114,15 @@ class Driver(GenericAdapter):
             o["len"] = len(tc)
             o["common"] = tc.get_common_count()
             o["uncommon"] = tc.get_uncommon_count()
+            for meth in ("items", "keys", "values", "most_common"):
+                # the caller owns the lists it is handed: scribble on them, the reads below must not notice
+                try:
+                    lst_ = getattr(tc, meth)()
+                    if isinstance(lst_, list):
+                        lst_.append(("scribbled", -1))
+                        lst_.reverse()
+                except Exception:
+                    pass
             items = tc.items()
             d = {}
             why = None
